@@ -17,7 +17,18 @@ Definition cw_fget (k : cw_key) (l : list cw_file) : option cw_bytes :=
   match find (fun f => cw_keq k (fst f)) l with Some f => Some (snd f) | None => None end.
 Definition cw_fremove (k : cw_key) (l : list cw_file) : list cw_file := filter (fun f => negb (cw_keq k (fst f))) l.
 
-Record cw_obj := { co_key : cw_key; co_runtime : bool; co_deps : list cw_key }.
+(* Where a declaration was loaded from: the main configuration (no package), or a stage of the config package with
+   that NAME (a byte string).  ConfigItem::Commit copies it into the object's `package` attribute. *)
+Inductive cw_origin := CwMain | CwPkg (name : cw_bytes).
+Definition cw_api_pkg : cw_bytes := [95; 97; 112; 105].                (* "_api" *)
+(* "created at runtime": the criterion of DeleteObject (refusal) and DeleteObjectHelper (file removal) is
+   `object->GetPackage() == "_api"` - equality of the whole name, byte for byte (fact f_cw_delete_by_package_eq) *)
+Definition cw_origin_runtime (o : cw_origin) : bool :=
+  match o with CwMain => false | CwPkg n => cw_beq n cw_api_pkg end.
+Definition cw_origin_api : cw_origin := CwPkg cw_api_pkg.
+
+Record cw_obj := { co_key : cw_key; co_pkg : cw_origin; co_deps : list cw_key }.
+Definition co_runtime (o : cw_obj) : bool := cw_origin_runtime (co_pkg o).
 Record cw_store := { cs_objs : list cw_obj; cs_items : list cw_key; cs_files : list cw_file }.
 Definition cw_store0 : cw_store := {| cs_objs := []; cs_items := []; cs_files := [] |}.
 
@@ -60,7 +71,7 @@ Definition cw_create_m (byobj : bool) (st : cw_store) (ty full : cw_bytes) (nc :
               if negb (forallb (fun d => match cw_find d st1 with Some _ => true | None => false end) deps)
               then (undo st1, CwrFail)                                 (* dangling reference: OnAllConfigLoaded throws, commit fails *)
               else
-              let st2 := {| cs_objs := {| co_key := ke; co_runtime := true; co_deps := deps |} :: cs_objs st1;
+              let st2 := {| cs_objs := {| co_key := ke; co_pkg := cw_origin_api; co_deps := deps |} :: cs_objs st1;
                             cs_items := if nc then cs_items st1 else ke :: cs_items st1;
                             cs_files := cs_files st1 |} in
               (* `ctype->GetObject(fullName)`: only then removeConfigPath.Cancel() *)
@@ -69,12 +80,34 @@ Definition cw_create_m (byobj : bool) (st : cw_store) (ty full : cw_bytes) (nc :
       end.
 Definition cw_create := cw_create_m cw_src_precheck_object.
 
-(* an object loaded from ordinary configuration (package <> _api) *)
-Definition cw_add_static (st : cw_store) (k : cw_key) (nc : bool) (deps : list cw_key) : cw_store :=
+(* an object loaded from a configuration file at start-up / reload: from the main configuration, from a stage of some
+   other config package, or from a file that was already lying in the _api package (what a restart does with the
+   objects created at runtime earlier).  Only in the last case the file belongs to the tree of the _api package. *)
+Definition cw_add_loaded (st : cw_store) (k : cw_key) (nc : bool) (deps : list cw_key) (orig : cw_origin) (content : cw_bytes) : cw_store :=
   match cw_find k st with
   | Some _ => st
-  | None => {| cs_objs := {| co_key := k; co_runtime := false; co_deps := deps |} :: cs_objs st;
-               cs_items := if nc then cs_items st else k :: cs_items st; cs_files := cs_files st |}
+  | None => {| cs_objs := {| co_key := k; co_pkg := orig; co_deps := deps |} :: cs_objs st;
+               cs_items := if nc then cs_items st else k :: cs_items st;
+               cs_files := if cw_origin_runtime orig then (k, content) :: cw_fremove k (cs_files st) else cs_files st |}
+  end.
+(* an object loaded from ordinary configuration (no package) *)
+Definition cw_add_static (st : cw_store) (k : cw_key) (nc : bool) (deps : list cw_key) : cw_store :=
+  cw_add_loaded st k nc deps CwMain [].
+
+(* The stages of the OTHER config packages (name <> "_api"): which package, which object the file declares, its bytes.
+   Neither CreateObject nor DeleteObject(Helper) ever touches them: the only file operations of the two are
+   AtomicFile::Write / Utility::Remove on paths below packages/_api (the second guarded by GetPackage() == "_api"). *)
+Definition cw_pfile := (cw_bytes * cw_file)%type.
+Record cw_world := { ww_store : cw_store; ww_foreign : list cw_pfile }.
+Definition cw_world0 : cw_world := {| ww_store := cw_store0; ww_foreign := [] |}.
+Definition cw_wload (w : cw_world) (k : cw_key) (nc : bool) (deps : list cw_key) (orig : cw_origin) (content : cw_bytes) : cw_world :=
+  match cw_find k (ww_store w) with
+  | Some _ => w
+  | None => {| ww_store := cw_add_loaded (ww_store w) k nc deps orig content;
+               ww_foreign := match orig with
+                             | CwPkg n => if cw_beq n cw_api_pkg then ww_foreign w else ww_foreign w ++ [(n, (k, content))]
+                             | CwMain => ww_foreign w
+                             end |}
   end.
 
 Definition cw_children (k : cw_key) (st : cw_store) : list cw_key :=
@@ -102,6 +135,12 @@ Definition cw_delete (st : cw_store) (k : cw_key) (cascade : bool) : cw_store * 
       else if negb cascade && negb (match cw_children k st with [] => true | _ => false end) then (st, CwrFail)
       else (cw_del_helper (S (length (cs_objs st))) k st, CwrOk)
   end.
+
+(* create / delete in the world: the stages of the other packages are not among the things either of them writes *)
+Definition cw_wcreate (w : cw_world) ty full nc content o : cw_world * cw_res :=
+  let '(st', r) := cw_create (ww_store w) ty full nc content o in ({| ww_store := st'; ww_foreign := ww_foreign w |}, r).
+Definition cw_wdelete (w : cw_world) k cascade : cw_world * cw_res :=
+  let '(st', r) := cw_delete (ww_store w) k cascade in ({| ww_store := st'; ww_foreign := ww_foreign w |}, r).
 
 (* ---------------------------------------------------------------- observations and the oracle *)
 (* what vdrive prints about one tracked (type, name) *)
